@@ -17,6 +17,7 @@ import (
 	"sort"
 	"strings"
 	"sync"
+	"sync/atomic"
 
 	mxj "github.com/clbanning/mxj/v2"
 )
@@ -50,10 +51,7 @@ func runRO(m map[string]interface{}, c roCall) string {
 			v, err := mv.ValuesForPath(c.Path)
 			return Outcome{Ret: canonMultiset(v), Err: err}
 		case "ValueForKey":
-			v, err := mv.ValueForKey(c.Key)
-			if l, ok := v.([]interface{}); ok {
-				return Outcome{Ret: canonMultiset(l), Err: err}
-			}
+			_, err := mv.ValueForKey(c.Key)
 			return Outcome{Ret: "", Err: err} // which of several values comes first depends on map iteration
 		case "ValueForPath":
 			_, err := mv.ValueForPath(c.Path)
@@ -349,6 +347,8 @@ func runC17(cfg runCfg) error {
 
 // runC17race: the stress run of the -race build; a detected race makes the runtime print
 // "WARNING: DATA RACE" on stderr (and exit non-zero at the end), which bin/check looks for.
+var privateBad atomic.Int64
+
 func runC17race(cfg runCfg) error {
 	r := newRng(cfg.seed)
 	bad := 0
@@ -375,10 +375,24 @@ func runC17race(cfg runCfg) error {
 				mxj.NewMapXmlSeq(b)
 				j, _ := m.Json()
 				mxj.NewMapJson(j)
+				// the stream readers, each on its own reader
+				jm, _ := mxj.NewMapJsonReader(bytes.NewReader(j))
+				jm2, raw, _ := mxj.NewMapJsonReaderRaw(bytes.NewReader(append(append([]byte{}, j...), j...)))
+				if canon(map[string]interface{}(jm)) != canon(map[string]interface{}(m)) || canon(map[string]interface{}(jm2)) != canon(map[string]interface{}(m)) || !bytes.Equal(raw, j) {
+					fmt.Fprintf(os.Stderr, "C17race: concurrent-differs: private JSON reader pipeline returned %s / %s raw=%s for %s\n", canon(map[string]interface{}(jm)), canon(map[string]interface{}(jm2)), raw, j)
+					privateBad.Add(1)
+				}
+				xm, _ := mxj.NewMapXmlReader(bytes.NewReader(b))
+				sm, _ := mxj.NewMapXmlSeqReader(bytes.NewReader(b))
+				xm.Xml()
+				sm.Xml()
 			}()
 		}
 		wg.Wait()
 	}
-	fmt.Printf("C17race: %d cases, %d failures\n", cfg.n, bad)
+	fmt.Printf("C17race: %d cases, %d failures, %d private-pipeline failures\n", cfg.n, bad, privateBad.Load())
+	if bad > 0 || privateBad.Load() > 0 {
+		return fmt.Errorf("C17race: results under concurrent use differ from sequential results")
+	}
 	return nil
 }
